@@ -243,3 +243,55 @@ def install_contiguous(R):
     # ASSUMED: ascontiguousarray / asfortranarray / asarray return the array itself when nothing has to change (worst case for aliasing)
     for nm in ("numpy.ascontiguousarray", "numpy.asfortranarray"):
         R.fns[nm] = lambda E, a, dtype=None, **kw: a
+
+
+def install_where_median(R):
+    def _where(E, cond, *rest):
+        """numpy.where(mask) for a 1-d boolean array: (array of the selected positions, in increasing order,)"""
+        if rest or not (isinstance(cond, NdArr) and cond.kind == "bool" and cond.ndim == 1):
+            raise Unsupported("numpy.where(%r, ...)" % (cond,))
+        fm, n, K, rank, unrank = R.mask_info(E, cond)
+        out = NdArr.from_fn("where", (K,), "int", lambda t: unrank(t))
+        out.cell.where_of = (cond, fm, rank, unrank)
+        return (out,)
+    R.fns["numpy.where"] = _where
+    R.fns["numpy.nonzero"] = _where
+
+    def _median(E, a, axis=None, **kw):
+        """ASSUMED: numpy.median(a, axis=0) of a non-empty 2-d array lies, per column, between two entries of that column
+        (witness rows as ghost functions of the column); NaN-free input"""
+        if not (isinstance(a, NdArr) and a.ndim == 2 and axis == 0):
+            raise Unsupported("median(%r, axis=%r)" % (a, axis))
+        if a.cell.nan is not None:
+            raise Unsupported("median of an array that may hold NaN")
+        m = z(a.shape[0])
+        out = NdArr.fresh("median", (a.shape[1],), "real")
+        lo = z3.Function(fresh_name("median_lo"), z3.IntSort(), z3.IntSort())
+        hi = z3.Function(fresh_name("median_hi"), z3.IntSort(), z3.IntSort())
+        fs = a.snapshot()
+        j = z3.Int(fresh_name("mj"))
+        E.assume(z3.ForAll([j], z3.Implies(z3.And(m >= 1, j >= 0, j < z(a.shape[1])), z3.And(
+            lo(j) >= 0, lo(j) < m, hi(j) >= 0, hi(j) < m, fs.get(lo(j), j) <= out.get(j), out.get(j) <= fs.get(hi(j), j))), patterns=[out.get(j)]))
+        return out
+    R.fns["numpy.median"] = _median
+
+
+def install_bincount(R):
+    def _bincount(E, x, weights=None, minlength=0):
+        """numpy.bincount(x, weights): one entry per value 0 .. max(x) (at least minlength): the (weighted) number of occurrences.
+        Modelled: the length, and that a value that does not occur has entry 0; negative values raise ValueError"""
+        if not (isinstance(x, NdArr) and x.kind == "int" and x.ndim == 1):
+            raise Unsupported("bincount(%r)" % (x,))
+        n = z(x.shape[0])
+        i, c = z3.Int(fresh_name("bi")), z3.Int(fresh_name("bc"))
+        E.safety("bincount-non-negative", z3.ForAll([i], z3.Implies(z3.And(i >= 0, i < n), x.get(i) >= 0)), None, "ValueError")
+        L = E.int("bincount_len")
+        top = E.int("bincount_top")
+        ml = z(minlength)
+        fs = x.snapshot()
+        E.assume(z3.And(L >= ml, L >= 0, z3.ForAll([i], z3.Implies(z3.And(i >= 0, i < n), fs.get(i) < L)),
+                        z3.Implies(n >= 1, z3.And(top >= 0, top < n, z3.Or(L == fs.get(top) + 1, L == ml))), z3.Implies(n <= 0, L == ml)))
+        out = NdArr.fresh("bincount", (L,), "real" if weights is not None else "int")
+        E.assume(z3.ForAll([c], z3.Implies(z3.And(c >= 0, c < L, z3.ForAll([i], z3.Implies(z3.And(i >= 0, i < n), fs.get(i) != c))), out.get(c) == 0)))
+        return out
+    R.fns["numpy.bincount"] = _bincount
